@@ -270,6 +270,24 @@ def check_normalize(case, ctx):
         vf = [[v.id, list(v.uv), list(v.data)] for v in Fo.vertices]
         ctx.check(_rel_eq(vn, vf), "normalize-tessellate", "tessellation vertices differ between the two settings (first %r vs %r)" % (vn[:2], vf[:2]))
         ctx.check([list(f.data) for f in N.faces] == [list(f.data) for f in Fo.faces], "normalize-tessellate", "tessellation faces differ")
+        # a trim curve given in each object's own (u, v) coordinates maps to the same 3-D polyline (trimming.map_trim_to_geometry)
+        from geomdl import trimming as _trm, BSpline as _BS, knotvector as _kvm
+        mapped = []
+        for o in (build.make(d, normalize=True), build.make(d, normalize=False)):
+            (ku, kv_), (pu, pv), (nu, nv) = build.kvs_of(o), build.degrees_of(o), build.sizes_of(o)
+            t = _BS.Curve()
+            t.degree = 1
+            t.ctrlpts = [[ku[pu] + f * (ku[nu] - ku[pu]), kv_[pv] + g * (kv_[nv] - kv_[pv])] for f, g in ((0.25, 0.5), (0.5, 0.25), (0.75, 0.5), (0.5, 0.75), (0.25, 0.5))]
+            t.knotvector = _kvm.generate(1, 5)
+            t.sample_size = 9
+            o.trims = [t]
+            res = _trm.map_trim_to_geometry(o, 0) if case["k"] else _trm.map_trim_to_geometry(o)
+            mapped.append([[list(q) for q in r.evalpts] for r in res])
+        ctx.label("trim-mapped-to-geometry")
+        ctx.check(len(mapped[0]) == 1 and len(mapped[1]) == 1 and len(mapped[0][0]) == 9 and len(mapped[1][0]) == 9, "normalize-trim-mapping",
+                  "map_trim_to_geometry: %r polylines of %r points (normalised), %r of %r (original range); one trim sampled at 9 points" % (
+                      len(mapped[0]), [len(x) for x in mapped[0]], len(mapped[1]), [len(x) for x in mapped[1]]))
+        ctx.check(_rel_eq(mapped[0], mapped[1]), "normalize-trim-mapping", "the 3-D image of the same trim differs between the two settings: %r vs %r" % (mapped[0][0][:2], mapped[1][0][:2]))
 
 
 # ------------------------------------------------------------------------------------------------ (c) num_procs
@@ -280,7 +298,7 @@ def _procs_cases(draw, tier):
         n = draw(st.integers(1, 4))
         shapes = [draw(gen.spline(kinds=("surface",), dims=(3,), max_p=2, max_extra=2, different=True)) for _ in range(n)]
         return {"what": what, "shapes": shapes, "n": draw(st.sampled_from([2, 4, 6])), "procs": draw(st.sampled_from([2, 4, 8])),
-                "spacing": draw(st.sampled_from([1, 2])), "quad": draw(st.integers(0, 3)) == 0}
+                "spacing": draw(st.sampled_from([1, 2])), "quad": draw(st.integers(0, 3)) == 0, "trimtsl": draw(st.integers(0, 3)) == 0}
     d = draw(gen.spline(kinds=("surface", "volume"), max_p=2, max_extra=2, vol_max_p=1, vol_max_extra=2, distinct=True))
     return {"what": what, "shapes": [d], "grid": [draw(st.sampled_from([3, 5, 7, 2, 4, 6])) for _ in range(3)], "n": draw(st.integers(2, 4)),
             "vkw": draw(st.sampled_from([{}, {}, {"tol": 0.0625}, {"padding": 0.0625}, {"tol": 0.125, "padding": 0.03125}])),
@@ -299,12 +317,17 @@ def check_num_procs(case, ctx):
                 from geomdl import tessellate as _tsl
                 c.tessellator = _tsl.QuadTessellate()          # the other shipped tessellator, chosen for all members
                 c.tessellate(num_procs=k)
+            elif case.get("trimtsl"):
+                from geomdl import tessellate as _tsl
+                c.tessellator = _tsl.TrimTessellate()          # the trim-aware tessellator (a subclass with state of its own); no trims here
+                c.tessellate(num_procs=k)
             else:
                 c.tessellate(num_procs=k, vertex_spacing=case.get("spacing", 1))
             return ([[v.id, list(v.uv), list(v.data)] for v in c.vertices], [[f.id, list(f.data)] for f in c.faces])
         ctx.nt(len(case["shapes"]) >= 2 and len(set(tuple(d["size"]) for d in case["shapes"])) >= 2, ">=2-surfaces-different-sizes")
         ctx.nt(case.get("spacing", 1) > 1, "tessellation-keyword")
         ctx.label("quad-tessellator", bool(case.get("quad")))
+        ctx.label("trim-tessellator", bool(case.get("trimtsl")) and not case.get("quad"))
         base = run(1)
         got = run(procs)
         ctx.check(got[0] == base[0], "num_procs-tessellate-vertices", "vertices with num_procs=%d differ from num_procs=1 (%d vs %d vertices)" % (procs, len(got[0]), len(base[0])))
